@@ -134,6 +134,12 @@ func init() {
 			if res.Fatal != "" && (fatalClass(res.Fatal) == "open-panic" || fatalClass(res.Fatal) == "open-error") {
 				ev.Mine = append(ev.Mine, Violation{Oracle: "reopen", Class: fatalClass(res.Fatal) + ":" + panicSite(res.FatalStk), Msg: "Open after a clean Close: " + res.Fatal})
 			}
+			// ... and a call on the reopened store must return: a Get, Set or Commit that panics in an instance opened
+			// on a cleanly closed directory (the clients of this check are sequential, the first instance is excluded)
+			// did not give back the committed state
+			if res.Fatal != "" && fatalClass(res.Fatal) == "client-panic" && res.FatalInst > 1 {
+				ev.Mine = append(ev.Mine, Violation{Oracle: "reopen", Class: "client-panic-after-reopen:" + panicSite(res.FatalStk), Msg: fmt.Sprintf("call on the store reopened after a clean Close (instance %d) panicked: %s", res.FatalInst, res.Fatal)})
+			}
 			vs, m := CheckSeq(res.Case, res.Hist)
 			ev.Evaluations = m.Reads
 			for _, v := range vs {
